@@ -30,6 +30,8 @@ class CFG:
             for s in term_succs(b["term"]):
                 if body.blocks[s]["cleanup"]:
                     continue
+                if body.blocks[s]["term"]["k"] == "unreachable" and not body.blocks[s]["stmts"]:
+                    continue  # exhaustive-match fallthrough
                 if s not in self.succ[i]:
                     self.succ[i].append(s)
         # prune constant switches (cfg!(dev) etc.) and unreachable blocks
